@@ -28,3 +28,27 @@ Theorem C03_lock_semantics : forall b s,
   (read_lock b s = Some false -> exists w, exec_prim PLockRelease [LitV (LitLoc b 0)] s = RStuck w).
 Proof. exact lock_semantics. Qed.
 Print Assumptions C03_lock_semantics.
+
+(* the machine is conservative over the sequential reference semantics: whatever
+   a run of one thread computes — its forked children run to completion at the
+   fork point, the schedule the sequential semantics itself uses — the
+   sequential semantics (the one C01/C02 are stated in, validated against the
+   upstream semantics suite) computes too: same value, same final state *)
+From GV Require Import Lang.GlMachineSeq.
+
+Theorem C03_machine_runs_are_sequential_results : forall k e s v s',
+  mrun k e s = Some (v, s') -> exists n, eval n e s = RVal v s'.
+Proof. exact mrun_sound. Qed.
+Print Assumptions C03_machine_runs_are_sequential_results.
+
+(* one step of the machine never changes what the expression evaluates to *)
+Theorem C03_machine_step_preserves_meaning : forall e s,
+  match step1 e s with
+  | SPure e' => forall w s1, (exists n, eval n e' s = RVal w s1) -> exists n, eval n e s = RVal w s1
+  | SMem e' s' _ => forall w s1, (exists n, eval n e' s' = RVal w s1) -> exists n, eval n e s = RVal w s1
+  | SFork e' c => forall wc sc, (exists n, eval n c s = RVal wc sc) ->
+                  forall w s1, (exists n, eval n e' sc = RVal w s1) -> exists n, eval n e s = RVal w s1
+  | _ => True
+  end.
+Proof. exact step1_ok. Qed.
+Print Assumptions C03_machine_step_preserves_meaning.
